@@ -88,6 +88,7 @@ type FnCtx struct {
 	depth    int
 	wfSet    map[string]bool
 	topArgs  []Val
+	freeVals map[*ssa.FreeVar]Val // captured variables of a function literal under contract: pointers to their cells
 	stack    []*ssa.Function
 }
 
@@ -601,6 +602,9 @@ func (f *frame) val(v ssa.Value) Val {
 	case *ssa.Function:
 		return Val{T: "nil", Fn: v, Typ: v.Type()}
 	case *ssa.FreeVar:
+		if x, ok := f.c.freeVals[v]; ok && f.fn == f.c.top {
+			return x
+		}
 		subsetf("free variable %s (closure body)", v.Name())
 	case *ssa.Builtin:
 		return Val{T: "nil", Typ: v.Type()}
